@@ -581,11 +581,24 @@ def rules(rep, m):
     for n in walk(pc.body):
         if n["kind"] == "IfStmt" and inv.in_loop(pc, n) and "item[" in pcx.canon(kids(n)[0]):
             conds.append(n)
+    pred_expr, pred_is_body = (kids(conds[0])[0], False) if len(conds) == 1 else (None, False)
     if len(conds) != 1:
-        raise AnalysisBroken("cmb_event_pattern_cancel: cannot find its match condition (%d candidates)" % len(conds))
+        # the predicate may have been computed into a boolean local first (an inlined helper): the match-if is the one
+        # whose branch records the key; the predicate is the code of the loop body in front of it
+        rec = [n for n in walk(pc.body) if n["kind"] == "IfStmt" and inv.in_loop(pc, n) and
+               any(y["kind"] == "BinaryOperator" and y.get("opcode") == "=" and pcx.canon(kids(y)[1]).endswith((".key", "->key"))
+                   for y in walk(kids(n)[1]))]
+        rec = [n for n in rec if strip(kids(n)[0], casts=True)["kind"] == "DeclRefExpr"]
+        if len(rec) != 1:
+            raise AnalysisBroken("cmb_event_pattern_cancel: cannot find its match condition (%d candidates)" % len(conds))
+        par = [a_ for a_ in inv.enclosing_chain(pc, rec[0]) if a_["kind"] == "CompoundStmt"][-1]
+        before = kids(par)[:kids(par).index(rec[0])]
+        pred_expr = {"kind": "CompoundStmt", "inner": before + [{"kind": "ReturnStmt", "inner": [kids(rec[0])[0]]}]}
+        pred_is_body = True
+        conds = rec
     spec3 = spec_table(3)
     try:
-        t2, pair2 = pattern_predicate_table(m, pc, kids(conds[0])[0], 3, pcx, False)
+        t2, pair2 = pattern_predicate_table(m, pc, pred_expr, 3, pcx, pred_is_body)
         bad2 = [b for b in spec3 if spec3[b] != t2[b]]
     except _Unclassified as e:
         rep.finding(r7, pc.name, "predicate:atom", "the cancel predicate contains the comparison %s, which is "
